@@ -377,3 +377,7 @@ def run(ctx):
     ctx.add_sample({"script": [ln[:300] for ln in execs[0][:3]]})
     ctx.add_sample({"script": [ln[:300] for ln in execs[-1][:3]]})
     pipeline.drive_and_validate(ctx, exe, execs, SPEC_DIR, "XmlTrace", "Trace.cfg", label="xml", nbatch=16)
+    # the same parsers on several threads at once (Stateless.tla): one outcome per operation whoever performs it, and a
+    # ThreadSanitizer pass over the same scenarios (hidden shared state is a data race whatever the schedule)
+    from checks import stateless_common
+    stateless_common.drive(ctx, ["xml"], thorough, n=40 if not thorough else 1000)
